@@ -70,6 +70,9 @@ def symValidate (shape : List Nat) (axis : Option Int) (sshape : List Nat) : Exc
     if dim = 1 then .error .valueError else
     if squeezedRank sshape > 1 then .error .valueError else
     if sshape.length ≠ shape.length then .error .valueError else
+    -- one value per index of the quantization axis (added by the repair of the wrong-axis scale defect)
+    let sdim := if a = 0 then sshape.headD 0 else sshape.getLastD 0
+    if sdim ≠ dim ∨ prod sshape ≠ dim then .error .valueError else
     .ok (some (a = 0))
 
 structure QBytes where
